@@ -41,7 +41,7 @@ type Base64Encode struct {
 // Call the the function with the arguments provided.
 func (f *Base64Encode) Call(s *slip.Scope, args slip.List, depth int) slip.Object {
 	slip.CheckArgCount(s, depth, f, args, 1, 1)
-	source := []byte(slip.CoerceToOctets(args[0]).(slip.Octets))
+	source := coerceToBytes(args[0])
 
 	return slip.String(base64.StdEncoding.EncodeToString(source))
 }
